@@ -27,8 +27,9 @@ RULE = ("histories: screens with 1-8 plates (1..14 rows quick, ..40 thorough; ev
         "plate-uniform mask / all hidden / no mask; 25% with a mapping batchie made for a superset), then 1..8 (thorough ..20) "
         "steps chosen while running from: m mask_screen, u unmask_screen, s save_h5+load_h5, r reveal_plates, c reveal_plate.main() "
         "on a saved file (model: s+r+s), reveal requests mixing hidden, already observed, repeated, unknown (99, -1, n_plates, 10^6) "
-        "ids, all-zero / NaN plates, only-unknown and empty lists; extract_screen_metadata.main() before/after every reveal, at "
-        "random other steps and at the end; exhaustive part: every subset of plate ids from a masked screen (<= 5 plates), "
+        "ids, all-zero / NaN plates, only-unknown and empty lists; extract_screen_metadata.main() on the saved screen before/after half of the "
+        "reveals (always in replay), at 1/6 of the other steps and at the end; a refused reveal ends the history sent to the model, "
+        "the run continues from the unchanged screen as a further history; exhaustive part: every subset of plate ids from a masked screen (<= 5 plates), "
         "every pair of subsets for <= 3 plates.  constructor stream: mixed plate / observations without mask / nothing / mask "
         "without observations / valid uniform mask.  set_observed stream: random selections (right, wrong length), values of "
         "length count / 1 / wrong.  Non-trivial history: >= 2 plates and a successful reveal that newly reveals a plate "
@@ -224,7 +225,7 @@ def gen_hist_raw(rng, n_max, k_plates=None, mask_mode=None):
     elif x < 0.45:
         raw["mask"] = [False] * len(raw["pnames"])
     else:
-        st = {p: rng.random() < 0.4 for p in set(raw["pnames"])}
+        st = {p: rng.random() < 0.4 for p in sorted(set(raw["pnames"]))}
         raw["mask"] = [st[p] for p in raw["pnames"]]
     kind = "fresh"
     if rng.random() < 0.25:
@@ -581,7 +582,7 @@ def gen_ctor_case(rng, n_max):
     raw = gen_base(rng, n_max, rng.randint(1, 6))
     fill_observations(rng, raw)
     n = len(raw["pnames"])
-    st = {p: rng.random() < 0.5 for p in set(raw["pnames"])}
+    st = {p: rng.random() < 0.5 for p in sorted(set(raw["pnames"]))}
     raw["mask"] = [st[p] for p in raw["pnames"]]
     if mode == "mixed":
         if n == 1:                                  # a plate needs two rows to be mixed
@@ -665,7 +666,7 @@ def gen_setobs_case(rng, n_max):
     elif x < 0.3:
         raw["mask"] = None
     else:
-        st = {p: rng.random() < 0.4 for p in set(raw["pnames"])}
+        st = {p: rng.random() < 0.4 for p in sorted(set(raw["pnames"]))}
         raw["mask"] = [st[p] for p in raw["pnames"]]
     n = len(raw["pnames"])
     y = rng.random()
